@@ -16,7 +16,7 @@ if [ -f $src/demo.py ]; then
 else c1=na; fi
 res="$name demo_clean=$c0 demo_patched=$c1"
 for p in "$@"; do
-  XGI_VERIF_EVIDENCE=/tmp/seedlogs/evid_$name XGI_VERIF_REPLAYS=/tmp/seedlogs/replays_$name XGI_REPO=$wt timeout 1800 /verif/check $p > /tmp/seedlogs/$name.$p.log 2>&1; rc=$?
+  XGI_VERIF_EVIDENCE=/tmp/seedlogs/evid_$name XGI_VERIF_REPLAYS=/tmp/seedlogs/replays_$name XGI_REPO=$wt timeout 1800 ${VERIF_CHECK:-/verif/check} $p > /tmp/seedlogs/$name.$p.log 2>&1; rc=$?
   n=$(grep -c '^VIOLATION' /tmp/seedlogs/$name.$p.log)
   res="$res | $p rc=$rc viol=$n"
 done
